@@ -3,12 +3,13 @@
    OCaml's own); no Extract Constant; N, Z, positive, nat, byte stay Coq inductives. *)
 From Coq Require Extraction.
 From Coq Require Import ExtrOcamlBasic.
-From GE Require Import Lib.Bytes Lib.Varint Lib.Sha256 Model.Tx Model.TxHash Model.PsetV0 Model.Sighash.
+From GE Require Import Lib.Bytes Lib.Varint Lib.Sha256 Model.Tx Model.TxHash Model.PsetV0 Model.Sighash Spec.ElementsSighash.
 From GE Require Import Model.PsetV2.
 From GE Require Import Model.Scalar.
 From GE Require Import Spec.PartialMerkle Model.Merkle Model.Pegin.
 From GE Require Import Model.Ripemd160 Model.Spend.
 From GE Require Import Model.Blind.
+From GE Require Import Model.Taproot.
 Extraction Language OCaml.
 Extraction "model.ml"
   Byte.of_N Byte.to_N N.of_nat N.to_nat Z.of_N
@@ -17,6 +18,7 @@ Extraction "model.ml"
   ser_full ser_tx parse_tx size_tx weight vsize discount_weight discount_vsize_go
   wf_tx norm_tx canonical_flag has_witness txid wtxid copy_tx
   digest_legacy digest_v0 digest_v1 preimage_legacy preimage_v0 preimage_v1
+  spec_legacy_digest spec_v0_digest spec_v1_digest
   v0_ser v0_parse v0_wf v0_wf_core v0_norm v0_canon
   parse_pset ser_pset wf_pset norm_pset global_tbl input_tbl output_tbl
   go_calc_offset go_sub_scalars go_add_offset sout_of sarg_after sreturns_global
@@ -25,4 +27,6 @@ Extraction "model.ml"
   sign0 finalize0 maybe_finalize0 finalize_all0 maybe_finalize_all0 extract0 hop0_st
   sign2 sign_tap_key2 sign_tap_script2 finalize2 maybe_finalize2 finalize_all2 maybe_finalize_all2
   extract2 unsigned_tx2 hop2_st strip_tx satisfies empty_pin
-  bl_party_step bl_balanced bl_sc bl_enc b0_blind b0_balanced.
+  bl_party_step bl_balanced bl_sc bl_enc b0_blind b0_balanced
+  assemble_c cb_root_c parse_cb parse_cb_c ser_cb to_cb tapleaf_kv parse_tapleaf_kv_c verify_with_oracle
+  tweak_priv tweak_scalar scalar_of_bytes scalar_to_bytes x_on_curve tnode_hash leaf_hash.
